@@ -151,8 +151,49 @@ def d2_status_reaches_stop(ctx, rm: REModel):
         ok = status is not None and isinstance(h.body[0], ast.Assign) and A.chain(h.body[0].targets[0]) == "self._exit_status"
         ctx.ob("C02.D2-status-assigned-first", cname(run, h), ok, "" if ok else "the handler does not start by recording the exit status", where=where(run, h))
     # exit_reason falls back to the reason given to abort()
-    fb = [s for s in rm.outer_try.finalbody if isinstance(s, ast.If) and A.norm(s.test) == "not exit_reason"
-          and any(isinstance(x, ast.Assign) and A.norm(x.value) == "self._reason" for x in s.body)]
+    # decided by evaluating the statement in both cases (reason recorded / not recorded), whatever way it is written:
+    # `if not exit_reason: exit_reason = self._reason`, `exit_reason = exit_reason or self._reason`, a conditional expression ...
+    def truth(e, given):
+        if isinstance(e, ast.Name) and e.id == "exit_reason":
+            return given
+        if isinstance(e, ast.UnaryOp) and isinstance(e.op, ast.Not):
+            t = truth(e.operand, given)
+            return None if t is None else not t
+        if isinstance(e, ast.Compare) and len(e.ops) == 1 and isinstance(e.left, ast.Name) and e.left.id == "exit_reason" \
+                and isinstance(e.comparators[0], ast.Constant) and e.comparators[0].value in ("", None) and isinstance(e.ops[0], (ast.Eq, ast.NotEq, ast.Is, ast.IsNot)):
+            if e.comparators[0].value is None:
+                return None
+            return (not given) if isinstance(e.ops[0], ast.Eq) else given if isinstance(e.ops[0], ast.NotEq) else None
+        return None
+
+    def value(e, given):
+        if isinstance(e, ast.Name) and e.id == "exit_reason":
+            return "recorded"
+        if A.norm(e) == "self._reason":
+            return "fallback"
+        if isinstance(e, ast.BoolOp) and isinstance(e.op, ast.Or) and len(e.values) == 2:
+            t = truth(e.values[0], given)
+            return None if t is None else value(e.values[0], given) if t else value(e.values[1], given)
+        if isinstance(e, ast.IfExp):
+            t = truth(e.test, given)
+            return None if t is None else value(e.body if t else e.orelse, given)
+        return None
+
+    def after(st, given):
+        if isinstance(st, ast.Assign) and len(st.targets) == 1 and A.chain(st.targets[0]) == "exit_reason":
+            return value(st.value, given)
+        if isinstance(st, ast.If):
+            t = truth(st.test, given)
+            if t is None:
+                return None
+            cur = "recorded"
+            for x in (st.body if t else st.orelse):
+                if isinstance(x, ast.Assign) and any(A.chain(tg) == "exit_reason" for tg in x.targets):
+                    cur = after(x, given)
+            return cur
+        return "recorded"
+    i_close = next((i for i, st in enumerate(rm.outer_try.finalbody) if any(c in calls for c in A.calls_in(st, local=False))), len(rm.outer_try.finalbody))
+    fb = [st for st in rm.outer_try.finalbody[:i_close] if after(st, True) == "recorded" and after(st, False) == "fallback"]
     ctx.ob("C02.D2-status-reaches-stop", cname(run, None, "exit_reason falls back to self._reason"), bool(fb),
            "" if fb else "the reason passed to abort() no longer reaches the RunStop", where=where(run, rm.outer_try))
     ab = rm.m("_abort_coro")
@@ -266,6 +307,10 @@ CLAIM = {'text': "Decides that the tables which turn 'how the plan ended' into e
 
 RE = "run_engine.py"
 MUTANTS = [
+    ("reason fallback inverted (the abort reason replaces a recorded failure text)",
+     [(RE, "            if not exit_reason:\n                exit_reason = self._reason", "            if exit_reason:\n                exit_reason = self._reason")], "C02.D2"),
+    ("reason fallback written with `and` instead of `or`",
+     [(RE, "            if not exit_reason:\n                exit_reason = self._reason", "            exit_reason = exit_reason and self._reason")], "C02.D2"),
     ("RequestStop recorded as abort",
      [(RE, "        except RequestStop:\n            self._exit_status = \"success\"", "        except RequestStop:\n            self._exit_status = \"abort\"")], "C02.D1"),
     ("exception_map sends 'stopping' to RequestAbort",
@@ -294,6 +339,10 @@ MUTANTS = [
      [(RE, "        was_paused = self._state == \"paused\"\n        self._state = \"stopping\"", "        was_paused = self._state == \"paused\"\n        self._state = \"aborting\"")], "C02.D1"),
 ]
 BENIGN = [
+    ("reason fallback written with `or`",
+     [(RE, "            if not exit_reason:\n                exit_reason = self._reason", "            exit_reason = exit_reason or self._reason")]),
+    ("reason fallback written as a conditional expression",
+     [(RE, "            if not exit_reason:\n                exit_reason = self._reason", "            exit_reason = self._reason if not exit_reason else exit_reason")]),
     ("ladder handler gains a log line after the status",
      [(RE, "        except RequestStop:\n            self._exit_status = \"success\"\n", "        except RequestStop:\n            self._exit_status = \"success\"\n            self.log.debug(\"stopped\")\n")]),
 ]
